@@ -6,6 +6,9 @@
     decn <schema/name> bare|boxed <hex>     → ok rest=<n> | err   (inputs the Go reader canonicalises through a map:
                                               unsorted / duplicate dictionary keys; the model keeps the vector)
     res <schema/name> <hex request, bare> <hex result>   → the same, for the function's result type
+    tl2size <n> <hex tail>                  → <hex TL2WriteSize n> calc=<k> parse=<ok n rest=k | err>
+    tl2parse <hex>                          → ok <n> rest=<k> | err
+    tl2str <len> <fill byte> <hex tail>     → head=<first 12 bytes> total=<n> read=<ok len=… rest=… same=… | err>
     frame <hex x> <hex lz4(x)>              → frame <hex>
     unframe <hex frame> na|err|ok:<hex>     → ok <hex> | err       (3rd token: what lz4.UncompressBlock did, if it was called)
 -/
@@ -65,6 +68,23 @@ def unframeObs (f : Bytes) (unlz : String) : String :=
     | none => "err"
     | some out => s!"ok {showHex out}"
 
+def parseObs (b : Bytes) : String :=
+  match tl2ParseSize b with
+  | none => "err"
+  | some (n, rest) => s!"ok {n} rest={rest.length}"
+
+def tl2sizeObs (n : Nat) (tail : Bytes) : String :=
+  let w := tl2WriteSize n
+  s!"{showHex w} calc={tl2CalculateSize n} parse={parseObs (w ++ tail)}"
+
+def tl2strObs (len fill : Nat) (tail : Bytes) : String :=
+  let b : Bytes := List.replicate len (UInt8.ofNat fill)
+  let w := tl2WriteStr b
+  let rd := match tl2ReadStr (w ++ tail) with
+    | none => "err"
+    | some (b', rest) => s!"ok len={b'.length} rest={rest.length} same={b' == b}"
+  s!"head={showHex (w.take 12)} total={w.length} read={rd}"
+
 def step (_ : Unit) (toks : List String) : Unit × List String :=
   match toks with
   | ["dec", key, form, hex] =>
@@ -85,6 +105,18 @@ def step (_ : Unit) (toks : List String) : Unit × List String :=
     match lookup key, lookupResult key, parseHex? hreq, parseHex? hres with
     | some (_, _, d), some rd, some req, some res => ((), [resObs d rd req res])
     | _, _, _, _ => ((), ["bad-op"])
+  | ["tl2size", n, ht] =>
+    match n.toNat?, parseHex? ht with
+    | some n, some t => ((), [tl2sizeObs n t])
+    | _, _ => ((), ["bad-op"])
+  | ["tl2parse", hb] =>
+    match parseHex? hb with
+    | some b => ((), [parseObs b])
+    | none => ((), ["bad-op"])
+  | ["tl2str", l, f, ht] =>
+    match l.toNat?, f.toNat?, parseHex? ht with
+    | some l, some f, some t => if f < 256 then ((), [tl2strObs l f t]) else ((), ["bad-op"])
+    | _, _, _ => ((), ["bad-op"])
   | ["frame", hx, hlz] =>
     match parseHex? hx, parseHex? hlz with
     | some x, some lz => ((), [s!"frame {showHex (frameOf lz x)}"])
